@@ -7,7 +7,7 @@ import os
 import signal
 import traceback
 
-from .common import Driver, InfraError
+from .common import CorrespondenceBroken, Driver, InfraError
 
 _driver = None
 
@@ -66,6 +66,8 @@ def _run(args):
         if _driver is not None:
             _driver.close()
             _driver = None
+    except CorrespondenceBroken as e:
+        res.extra["broken"] = str(e)
     except InfraError as e:
         res.extra["infra"] = str(e)
     except Exception as e:  # a crash of the harness itself is infrastructure, not a verdict
@@ -95,6 +97,8 @@ def run_pool(ctx, func, tasks, procs=None):
 def fold(ctx, res: Result):
     if "infra" in res.extra:
         raise InfraError(res.extra["infra"])
+    if "broken" in res.extra:
+        ctx.broken.append(res.extra["broken"])
     for desc, nt, br in res.cases:
         ctx.case(desc, nt, br)
     for k, v in res.counts.items():
